@@ -35,9 +35,6 @@ func Build(entries []Entry) []byte {
 		h := &tar.Header{Name: e.Name, Mode: int64(e.Perm), Format: tar.FormatPAX}
 		if e.Dir {
 			h.Typeflag = tar.TypeDir
-			if !strings.HasSuffix(h.Name, "/") && e.Tag == 1 {
-				h.Name += "/"
-			}
 		} else {
 			h.Typeflag = tar.TypeReg
 			h.Size = int64(e.Size)
